@@ -18,7 +18,7 @@ ID = 'C13'
 LEVEL = 'exploration'
 RUNS = {'quick': 16000, 'thorough': 300000}
 CHUNK = 40
-PROBES = ['other_request_made_while_listing_half_read', 'bsd_call_named_in_another_bsd_subclass', 'request_that_fails_at_creation', 'lookup_crossing_call_start', 'capture_begins_and_ends_inside_announcement_pairs', 'trace_string_code_outside_trace_class', 'request_without_code_table_after_custom_one', 'crossing_classes_on_one_thread', 'process_named_like_a_number', 'empty_thread_map', 'process_of_thread_announced_in_stream', 'dump_cut_at_both_ends', 'class_filter_bsd', 'class_filter_non_bsd', 'bsd_subclass_filter', 'tid_filter', 'process_filter_name', 'process_filter_pid',
+PROBES = ['class_lists_edited_while_listing_pending', 'other_request_made_while_listing_half_read', 'bsd_call_named_in_another_bsd_subclass', 'request_that_fails_at_creation', 'lookup_crossing_call_start', 'capture_begins_and_ends_inside_announcement_pairs', 'trace_string_code_outside_trace_class', 'request_without_code_table_after_custom_one', 'crossing_classes_on_one_thread', 'process_named_like_a_number', 'empty_thread_map', 'process_of_thread_announced_in_stream', 'dump_cut_at_both_ends', 'class_filter_bsd', 'class_filter_non_bsd', 'bsd_subclass_filter', 'tid_filter', 'process_filter_name', 'process_filter_pid',
           'helper_trace_class_hidden', 'helper_fs_class_hidden', 'helper_class_requested', 'repeat_request', 'callstacks_repeat',
           'kevents_after_traces', 'tuple_filter', 'images_announced_after_sample', 'combined_filters']
 RULE = ('one run = one long-lived PyKdebugParser and a history of 2..6 judged requests (traces, formatted_traces, callstacks, '
@@ -227,7 +227,12 @@ def generate(rng, index, tier):
         di = rng.randrange(len(dumps))
         if r < 0.25:
             hist.append({'op': 'set', 'filters': _gen_filters(rng, dumps[di])})
-        elif r < 0.27:
+        elif r < 0.265:
+            hist.append({'op': 'request_edit', 'dump': di, 'how': rng.pick(['append', 'clear', 'rebind']), 'which': rng.pick(['cls', 'sub']),
+                         'value': rng.pick([4, 1, 7, 3, 0x1f])})
+            if hist[-1]['which'] == 'sub':
+                hist[-1]['value'] = rng.pick([0x040c, 0x040e])
+        elif r < 0.28:
             hist.append({'op': 'bad_request', 'how': rng.pick(['empty', 'short', 'unknown', 'closed']), 'what': rng.pick(['traces', 'traces', 'formatted_traces', 'callstacks', 'kevents'])})
         elif r < 0.3:
             hist.append({'op': 'mutate', 'how': rng.pick(['append', 'remove']), 'value': rng.pick([4, 1, 0x1f, 7, 3])})
@@ -442,6 +447,51 @@ def execute(scn):
                 viols.append({'tag': 'filter-settings-changed', 'sig': 'failed-request',
                               'detail': 'caller set (tid, process, class, subclass) = %r, after a request on an unreadable stream they are %r' % (before, now)})
             hist.append(['bad_request', h['how']])
+            continue
+        if h['op'] == 'request_edit':
+            # the class / subclass lists are edited (in place or by assigning new ones) between making a listing and reading it.
+            # Which instant's lists the listing follows is left open; it follows ONE of them, as a whole
+            di = h['dump'] % len(files)
+            targ, tref = tables[di], tables[di]
+            ref, rexc = ref_traces(di, tref)
+            if rexc is not None or (cur.get('proc') is not None and filter_sensitive[di]):
+                hist.append(['request_edit', 'skipped'])
+                continue
+            if not (isinstance(p.filter_class, list) and isinstance(p.filter_subclass, list)):
+                hist.append(['request_edit', 'skipped-tuple'])
+                continue
+            bump('probe:class_lists_edited_while_listing_pending')
+            bump('fault:reconfigure')
+            old_cur = dict(cur, cls=list(cur.get('cls') or []), sub=list(cur.get('sub') or []))
+            try:
+                g_ = p.traces(SimReader(files[di]), targ)
+                lst = p.filter_subclass if h.get('which') == 'sub' else p.filter_class
+                if h['how'] == 'append':
+                    lst.append(h['value'])
+                elif h['how'] == 'clear':
+                    del lst[:]
+                else:
+                    if h.get('which') == 'sub':
+                        p.filter_subclass = [h['value']]
+                    else:
+                        p.filter_class = [h['value']]
+                items, exc = common.drain(g_)
+            except Exception as e:
+                items, exc = [], e
+            cur = dict(cur, cls=list(p.filter_class), sub=list(p.filter_subclass), as_tuple=False)
+            if exc is not None:
+                viols.append({'tag': 'filtered-request-raised', 'sig': common.exc_sig(exc), 'detail': 'lists edited while the listing was pending: %r' % exc})
+                continue
+            got = [str(t) for t in items]
+            wants = []
+            for c_ in (old_cur, cur):
+                pr_ = trace_pred(c_)
+                wants.append([s_ for (t_, s_, proc_) in ref if pr_(t_, proc_)])
+            if got not in wants:
+                viols.append({'tag': 'filtered-traces-differ', 'sig': 'lists-edited-while-pending',
+                              'detail': 'lists %r -> %r between making and reading the listing: %d traces; with the earlier lists %d, with the later %d (of %d)' % (
+                                  (old_cur.get('cls'), old_cur.get('sub')), (cur.get('cls'), cur.get('sub')), len(got), len(wants[0]), len(wants[1]), len(ref))})
+            hist.append(['request_edit', len(got), len(wants[0]), len(wants[1])])
             continue
         if h['op'] == 'set':
             cur = h['filters']
